@@ -41,7 +41,7 @@ type c19arg struct {
 	LogFile  string `json:"log_file"`
 }
 
-var c19scenarios = []string{"sync-full-incr-reconnect", "sync-resume-checkpoint", "sync-psync-refused-restart", "restore", "rump", "dump", "supervisor", "sync-cluster-source", "checkpoint-load", "status-documents"}
+var c19scenarios = []string{"sync-full-incr-reconnect", "sync-resume-checkpoint", "sync-psync-refused-restart", "restore", "rump", "dump", "supervisor", "supervisor-retries-exhausted", "sync-cluster-source", "checkpoint-load", "status-documents"}
 
 func setLevel(l string) {
 	switch l {
@@ -164,6 +164,16 @@ func c19scenarioChild(raw json.RawMessage, scratch string) {
 		in := slot.SyncNode{Id: 3, Source: bad.addr, SourcePassword: a.SrcPw, Target: []string{"127.0.0.1:1"}, TargetPassword: a.TgtPw, Slaves: []string{good.addr, "127.77.9.9:9"}, SlotLeftBoundary: 0, SlotRightBoundary: 100}
 		nd, err := slotsupervisor.New(in).GetSlotState()
 		log.Infof("supervisor result: %v err=%v", nd != nil, err)
+	case "supervisor-retries-exhausted":
+		// no node ever reports master: the discovery uses up its whole retry budget (about 21 s of back-off) and gives up
+		conf.Options = base
+		n1 := &fakeNode{Script: []string{bSlave}}
+		n1.start()
+		n2 := &fakeNode{Script: []string{bErr, bSlave, bNoRole}}
+		n2.start()
+		in := slot.SyncNode{Id: 4, Source: n1.addr, SourcePassword: a.SrcPw, Target: []string{"127.0.0.1:1"}, TargetPassword: a.TgtPw, Slaves: []string{n2.addr, "127.77.9.7:9"}, SlotLeftBoundary: 0, SlotRightBoundary: 16383}
+		nd, err := slotsupervisor.New(in).GetSlotState()
+		log.Infof("supervisor result: %v err=%v", nd != nil, err)
 	case "sync-cluster-source":
 		// the use at sync start: DbSyncer.Sync() with source.type=cluster re-discovers the shard's master (the configured
 		// source is a dead node, a known replica was promoted), runs full + incremental sync, loses the link and restarts
@@ -207,7 +217,7 @@ var logCallRe = regexp.MustCompile(`\[(?:INFO|WARN|ERROR|DEBUG|PANIC)\][^\n]{0,1
 
 func c19(c *wk.Ctx) {
 	r := c.R
-	r.Rule = "every run path (sync start + full + incremental + source reconnect via CmdSync.Main, resume with checkpoint load, restart after a refused PSYNC until the retry budget ends the process, restore mode, rump, dump, shard supervisor with failing nodes, DbSyncer.Sync() with source.type=cluster (topology re-discovery at every start and restart), checkpoint load incl. a wrong password, the status documents) x log levels {debug, info, warn, error} runs in a child whose log.StdLog is redirected into a file, with distinct sentinel passwords that the fake peers really require; every byte logged plus json/%v/%+v renderings of conf.GetSafeOptions(), metric.NewMetricRest() and GetDetailedInfo() is scanned for the sentinels. distinct = (scenario, level)"
+	r.Rule = "every run path (sync start + full + incremental + source reconnect via CmdSync.Main, resume with checkpoint load, restart after a refused PSYNC until the retry budget ends the process, restore mode, rump, dump, shard supervisor with failing nodes and with a retry budget that runs out, DbSyncer.Sync() with source.type=cluster (topology re-discovery at every start and restart), checkpoint load incl. a wrong password, the status documents) x log levels {debug, info, warn, error} runs in a child whose log.StdLog is redirected into a file, with distinct sentinel passwords that the fake peers really require; every byte logged plus json/%v/%+v renderings of conf.GetSafeOptions(), metric.NewMetricRest() and GetDetailedInfo() is scanned for the sentinels. distinct = (scenario, level)"
 	srcPw := fmt.Sprintf("S3NT-src-%d", c.Seed)
 	tgtPw := fmt.Sprintf("S3NT-tgt-%d", c.Seed)
 	levels := []string{"debug", "info", "warn", "error"}
